@@ -19,6 +19,8 @@ def sweeps(ctx):
         # incarnations, withdrawn writes) under straggler schedules (one worker frozen mid-task)
         # existing-empty fee recipient (a zero reward still touches it), all transaction kinds
         ("emptyben", 7, 250 if q else 4000, ["txs=2..6", "workers=1,2,3", "opts=invalid,destroy,create,ben,shared,emptyben"]),
+        # Prague blocks with sponsored EIP-7702 authorisations (set / re-point / clear) and calls to the EOAs
+        ("auth", 8, 300 if q else 5000, ["txs=3..7", "workers=2,3", "opts=auth,shared,ben", "strat=mix2"]),
         ("slowdb", 6, 400 if q else 8000, ["txs=3..6", "workers=2,3", "opts=shared,ben,destroy", "strat=slowdb"]),
         ("chain", 5, 1200 if q else 20000, ["txs=3..5", "workers=2,3", "opts=chain", "strat=straggler"]),
     ]
